@@ -44,7 +44,7 @@ func c17Universe() []gen.V {
 			u = append(u, gen.Float(float64(k)/4)) // whole-number floats too
 		}
 	}
-	for _, s := range []string{"7", "-3", "2.50", "0", "x", "", "1e"} {
+	for _, s := range []string{"7", "-3", "2.50", "0", "x", "", "1e", "010", "-017", "0x10", "007.50"} {
 		u = append(u, gen.Str(s))
 	}
 	u = append(u, gen.Nil)
@@ -113,7 +113,7 @@ func c17Classify(v gen.V, receiver bool) c17Operand {
 			o.st, o.rat, o.isI = ref.OK, ref.Rat(n), n.K == gen.KInt
 		case ok:
 			o.st = ref.Unsp
-		case strings.ContainsAny(v.S, "eE+_ ") || strings.TrimSpace(v.S) != v.S:
+		case strings.ContainsAny(v.S, "eE+_ ") && !strings.HasPrefix(v.S, "0x") || strings.TrimSpace(v.S) != v.S:
 			o.st = ref.Unsp
 		default:
 			o.st = ref.Err
@@ -368,10 +368,20 @@ func c17Chains(c *core.Ctx, e *liquid.Engine) {
 			switch op {
 			case "plus":
 				cur.Add(cur, ar)
-				src += " | plus: " + argS
+				if r.P(1, 3) { // the argument is itself a filtered expression in parentheses
+					half := float64(r.Range(-8, 8)) / 4
+					src += " | plus: (" + gen.FormatFloat(half) + " | plus: " + gen.FormatFloat(arg-half) + ")"
+				} else {
+					src += " | plus: " + argS
+				}
 			case "minus":
 				cur.Sub(cur, ar)
-				src += " | minus: " + argS
+				if r.P(1, 3) {
+					half := float64(r.Range(-8, 8)) / 4
+					src += " | minus: (" + gen.FormatFloat(arg-half) + " | plus: " + gen.FormatFloat(half) + " | times: 1)"
+				} else {
+					src += " | minus: " + argS
+				}
 			case "times":
 				cur.Mul(cur, ar)
 				src += " | times: " + argS
